@@ -70,6 +70,7 @@ def task_verlet(arg):
         if seen[sig] <= 2:
             viol.append({"signature": sig, "what": what, "replay": {"check": PID, "func": "task_verlet", "arg": arg}})
 
+    one_for_all = Verlet(dt=1.0, max_steps=1)  # one integrator object serving systems with different masses
     offsets = [np.array([[1.0, 0.0, 0.0], [0.0, -1.0, 0.5], [0.3, 0.3, -1.0]]), np.array([[-0.5, 1.0, 0.2], [1.0, 1.0, 1.0], [0.0, 0.0, 0.0]]), np.zeros((3, 3))]
     for masses, off, zs in itertools.product([1.0, 63.5, [1.0, 63.5, 12.0]], offsets, (1.0, -1.7)):
         # (a) reversibility
@@ -99,9 +100,30 @@ def task_verlet(arg):
                 V("C14/verlet/does-not-move", where)
             if ex > 1e-9 or ep > 1e-9:
                 V("C14/verlet/not-reversible", f"after integrate, negate, integrate: positions off by {ex:.3g}, momenta by {ep:.3g} (relative); {where}")
+        # (a') the same with a bond-length constraint applied by the integrator (momenta start
+        # perpendicular to the bond so that they satisfy the constraint)
+        if pot != "lj3":
+            from ase.constraints import FixBondLength
+
+            for dt, steps in itertools.product(arg["dts"][:3], (1, 5)):
+                atoms = start_atoms(pot, masses, off, zs)
+                atoms.set_constraint(FixBondLength(0, 1))
+                atoms.set_momenta(atoms.get_momenta())  # projected onto the constraint
+                x0, p0 = atoms.positions.copy(), atoms.get_momenta().copy()
+                integ = Verlet(dt=dt, max_steps=steps, apply_constraints=True)
+                ctx = Ctx(atoms)
+                integ.integrate(ctx)
+                atoms.set_momenta(-atoms.get_momenta(), apply_constraint=False)
+                integ.integrate(ctx)
+                counters["evaluations"] += 1
+                counters["nontrivial"] += 1
+                ex = np.abs(atoms.positions - x0).max() / max(1e-12, np.abs(x0).max())
+                ep = np.abs(-atoms.get_momenta() - p0).max() / max(1e-12, np.abs(p0).max())
+                if ex > 1e-9 or ep > 1e-9:
+                    V("C14/verlet/not-reversible/bond-length-constraint-applied", f"after integrate, negate, integrate: positions off by {ex:.3g}, momenta by {ep:.3g} (relative); pot={pot} masses={masses} dt={dt}fs steps={steps} FixBondLength(0,1) applied by the integrator")
         # (b) order of the energy error at fixed total time; the time step is either given to the
         # constructor or assigned to one integrator object afterwards (re-tuning the step)
-        for dt, mode in itertools.product(arg["dts_order"], ("constructed", "dt-assigned-after-construction")):
+        for dt, mode in itertools.product(arg["dts_order"], ("constructed", "dt-assigned-after-construction", "one-integrator-object-for-all-systems")):
             errs = []
             shared = Verlet(dt=3.0 * dt, max_steps=1, apply_constraints=(dt != arg["dts_order"][0]))
             for d, n in ((dt, arg["n_order"]), (dt / 2, 2 * arg["n_order"])):
@@ -110,7 +132,7 @@ def task_verlet(arg):
                 if mode == "constructed":
                     integ = Verlet(dt=d, max_steps=1, apply_constraints=(dt != arg["dts_order"][0]))
                 else:
-                    integ = shared
+                    integ = shared if mode == "dt-assigned-after-construction" else one_for_all
                     integ.dt = d * units.fs
                 ctx = Ctx(atoms)
                 worst = 0.0
